@@ -49,6 +49,9 @@ func (l *Log) Addf(format string, args ...any) {
 // Hash returns the hash of all events so far.
 func (l *Log) Hash() uint64 { return l.h }
 
+// SetHash installs the hash a child process computed for its log.
+func (l *Log) SetHash(h uint64) { l.h = h }
+
 // Violation describes a property violation found by one execution.
 type Violation struct {
 	// Class is the kind of violation; shrinking preserves it.
@@ -96,6 +99,10 @@ type Phase struct {
 	MaxProcs int
 	// SerialWorkers: number of worker processes (0 = one per core).
 	Workers int
+	// Fresh: every run executes in a process of its own (the worker starts
+	// one child per scenario), so that each scenario meets the library as a
+	// program's first use of it does: nothing initialised yet, no earlier call.
+	Fresh bool
 }
 
 // Property is one simulated check.
